@@ -719,3 +719,191 @@ def lower12(ctx) -> List[Ob]:
                 continue
             out.append(bad("LOWER-12", m.qualname, "other use: " + A.alpha_key(st)[:80], ctx.where(m, st), f"'{A.unparse(st)[:70]}' uses the block counter outside the reserve-then-advance idiom"))
     return out
+
+
+# ------------------------------------------------------------------ LOWER-13
+
+
+def _template_of(ctx, fn, arg: ast.AST):
+    """the f-string behind `ast.parse(<x>).body`: (JoinedStr | Constant str) or None"""
+    e = arg
+    for _ in range(4):
+        if isinstance(e, ast.Attribute) and e.attr == "body":
+            e = e.value
+        elif isinstance(e, ast.Call) and (A.dotted(e.func) or "") in ("ast.parse", "textwrap.dedent", "dedent") and e.args:
+            e = e.args[0]
+        elif isinstance(e, ast.Name):
+            ds = [d for d in ctx.cfg(fn).reaching_defs(e) if d.stmt is not None]
+            if len(ds) != 1 or not isinstance(ds[0].stmt, ast.Assign):
+                return None
+            e = ds[0].stmt.value
+        else:
+            break
+    if isinstance(e, ast.Call) and (A.dotted(e.func) or "") in ("textwrap.dedent", "dedent") and e.args:
+        e = e.args[0]
+    if isinstance(e, ast.JoinedStr) or (isinstance(e, ast.Constant) and isinstance(e.value, str)):
+        return e
+    return None
+
+
+def _symbolic_source(t: ast.AST):
+    """template text with every {name} replaced by the identifier __ph_name__"""
+    if isinstance(t, ast.Constant):
+        return t.value, set()
+    parts, phs = [], set()
+    for v in t.values:
+        if isinstance(v, ast.Constant):
+            parts.append(v.value)
+        elif isinstance(v, ast.FormattedValue) and isinstance(v.value, ast.Name):
+            parts.append(f"__ph_{v.value.id}__")
+            phs.add(v.value.id)
+        else:
+            return None, set()
+    return "".join(parts), phs
+
+
+@rule("LOWER-13", 3, "the statements a loop lowering injects do not disturb the loop target: it is written only with elements of the iterable, and exhaustion is recognised by identity with a private object, never by comparing an element with a constant")
+def lower13(ctx) -> List[Ob]:
+    import textwrap
+
+    out: List[Ob] = []
+    front = ctx.prog.cls(FRONT)
+    hf = front.methods.get("handle_for")
+    if hf is None:
+        raise AnalysisError("AST2SCFGTransformer.handle_for not found")
+    # which local holds the text of the loop target?
+    target_locals = set()
+    for s in A.walk_no_nested(hf.node):
+        if isinstance(s, ast.Assign) and isinstance(s.targets[0], ast.Name) and isinstance(s.value, ast.Call) and (A.dotted(s.value.func) or "") == "ast.unparse" and s.value.args and A.unparse(s.value.args[0]).endswith(".target"):
+            target_locals.add(s.targets[0].id)
+    if not target_locals:
+        out.append(unresolved("LOWER-13", hf.qualname, "loop target text", ctx.where(hf), "cannot see how the text of the loop target is obtained (expected ast.unparse(node.target))"))
+        return out
+    # is the lowering restricted to plain-name targets?
+    name_only = any(isinstance(s, ast.If) and "isinstance" in A.unparse(s.test) and ".target" in A.unparse(s.test) and "ast.Name" in A.unparse(s.test) and s.body and isinstance(s.body[-1], ast.Raise) for s in A.walk_no_nested(hf.node))
+    templates = []
+    for c in method_calls(hf.node, "codegen"):
+        if c.args and "ast.parse" in A.unparse(c.args[0]) or (c.args and isinstance(c.args[0], ast.Name)):
+            t = _template_of(ctx, hf, c.args[0])
+            if t is not None:
+                templates.append((c, t))
+    if len(templates) < 2:
+        out.append(unresolved("LOWER-13", hf.qualname, "injected templates", ctx.where(hf), "fewer than two injected source templates recognised in handle_for"))
+        return out
+    sentinel_defaults = set()
+    parsed = []
+    for c, t in templates:
+        text, phs = _symbolic_source(t)
+        if text is None:
+            out.append(unresolved("LOWER-13", hf.qualname, "template " + A.alpha_key(c)[:40], ctx.where(hf, c), "a template interpolates something other than plain local names"))
+            continue
+        try:
+            tree = ast.parse(textwrap.dedent(text))
+        except SyntaxError:
+            out.append(unresolved("LOWER-13", hf.qualname, "template " + A.alpha_key(c)[:40], ctx.where(hf, c), "the template does not parse once its placeholders are replaced by identifiers"))
+            continue
+        parsed.append((c, tree))
+    tph = {f"__ph_{n}__" for n in target_locals}
+    for c, tree in parsed:
+        for st in tree.body:
+            if isinstance(st, ast.Assign) and isinstance(st.value, ast.Call) and isinstance(st.value.func, ast.Name) and st.value.func.id == "next" and len(st.value.args) == 2:
+                sentinel_defaults.add(A.unparse(st.value.args[1]))
+    n_obs = 0
+    for c, tree in parsed:
+        where = ctx.where(hf, c)
+        for st in tree.body:
+            import re as _re
+
+            txt = _re.sub(r"__ph_(\w+?)__", r"{\1}", A.unparse(st))
+            if isinstance(st, ast.Assign) and any(A.unparse(t) in tph for t in st.targets):
+                n_obs += 1
+                v = st.value
+                if isinstance(v, ast.Constant):
+                    out.append(bad("LOWER-13", hf.qualname, "target given a placeholder constant", where, f"'{txt}': the loop target is overwritten before the first element is known - a loop that runs zero times loses the previous binding of the target (or hides that it is unbound), and a tuple / list target cannot take the constant at all (TypeError in every such loop)"))
+                elif isinstance(v, ast.Call) and isinstance(v.func, ast.Name) and v.func.id == "next" and len(v.args) == 2:
+                    if name_only:
+                        out.append(ok("LOWER-13", hf.qualname, "target receives the exhaustion default", where, f"'{txt}': targets other than a plain name are refused"))
+                    else:
+                        out.append(bad("LOWER-13", hf.qualname, "target receives the exhaustion default", where, f"'{txt}': on exhaustion the default of next() is stored into the loop target itself; a tuple, list, attribute or subscript target unpacks / stores the sentinel (error or visible side effect) instead of being left alone"))
+                else:
+                    out.append(ok("LOWER-13", hf.qualname, "target write " + A.alpha_key(st)[:50], where, f"'{txt}'", nontrivial=False))
+            if isinstance(st, ast.Expr) and isinstance(st.value, ast.Compare) and len(st.value.ops) == 1:
+                cmpn = st.value
+                sides = [A.unparse(cmpn.left), A.unparse(cmpn.comparators[0])]
+                if any(sd in sentinel_defaults for sd in sides):
+                    n_obs += 1
+                    const_side = next((x for x in (cmpn.left, cmpn.comparators[0]) if isinstance(x, ast.Constant)), None)
+                    if isinstance(cmpn.ops[0], (ast.Eq, ast.NotEq)):
+                        out.append(bad("LOWER-13", hf.qualname, "exhaustion recognised by equality", where, f"'{txt}': exhaustion is recognised by comparing the element with {'a constant' if const_side is not None else 'the sentinel'} using ==/!=: an element equal to it ends the loop early, and elements whose comparison does not give a bool (arrays) raise"))
+                    elif const_side is not None and isinstance(const_side.value, (str, int, float, bytes, tuple)):
+                        out.append(bad("LOWER-13", hf.qualname, "exhaustion recognised by identity with a literal", where, f"'{txt}': a literal can be an element of the iterable (interned strings, small integers)"))
+                    else:
+                        out.append(ok("LOWER-13", hf.qualname, "exhaustion test", where, f"'{txt}'"))
+    if n_obs == 0:
+        out.append(unresolved("LOWER-13", hf.qualname, "injected templates", ctx.where(hf), "no write of the loop target and no exhaustion test found in the templates"))
+    return out
+
+
+@rule("LOWER-14", 6, "the two successors of a front-end block are distinct blocks: handlers pass two different fresh indices, and the pruning that renames successors collapses a block whose two successors have become the same (keeping its test as an expression statement)")
+def lower14(ctx) -> List[Ob]:
+    out: List[Ob] = []
+    front = ctx.prog.cls(FRONT)
+    # (a) producers
+    for mname, m in sorted(front.methods.items()):
+        for c in method_calls(m.node, "set_jump_targets"):
+            if len(c.args) == 2:
+                a, b = A.unparse(c.args[0]), A.unparse(c.args[1])
+                key = A.alpha_key(c)
+                if a == b:
+                    out.append(bad("LOWER-14", m.qualname, key, ctx.where(m, c), f"both successors are {a}"))
+                else:
+                    out.append(ok("LOWER-14", m.qualname, key, ctx.where(m, c), f"{a} / {b} (distinct reserved indices, LOWER-12)", nontrivial=False))
+    # (b) the renaming pass
+    sites = []
+    for fn in ctx.prog.functions:
+        if not fn.module.name.endswith("ast_transforms"):
+            continue
+        for st in A.walk_no_nested(fn.node):
+            if isinstance(st, ast.Assign) and len(st.targets) == 1 and isinstance(st.targets[0], ast.Subscript) and "jump_targets" in A.unparse(st.targets[0].value) and fn.name.startswith("prune"):
+                sites.append((fn, st))
+    fns = []
+    for fn, st in sites:
+        if fn not in fns:
+            fns.append(fn)
+    if not fns:
+        out.append(unresolved("LOWER-14", "ASTCFG", "renaming pass", ctx.where(ctx.prog.cls("ASTCFG").node if False else front.methods["transform"]), "no pruning function that renames successors found"))
+        return out
+    for fn in fns:
+        stores = [st for f2, st in sites if f2 is fn]
+        X = A.unparse(stores[0].targets[0].value)
+        key = "coinciding successors collapsed"
+        where = ctx.where(fn, stores[-1])
+        guards = []
+        for g in A.walk_no_nested(fn.node):
+            if isinstance(g, ast.If):
+                t = A.unparse(g.test)
+                if t in (f"{X}[0] == {X}[1]", f"{X}[1] == {X}[0]", f"len(set({X})) == 1", f"len(set({X})) < len({X})", f"len({X}) == 2 and {X}[0] == {X}[1]"):
+                    guards.append(g)
+        if not guards:
+            out.append(bad("LOWER-14", fn.qualname, key, where, f"{fn.name} renames successors but never checks whether the two successors of a block have become the same block: 'if c: pass' (both arms empty) yields a block with two identical successors, which restructuring cannot handle (AssertionError in extract_region)"))
+            continue
+        g = guards[0]
+        last_store_line = max(A.lineno(s) for s in stores)
+        body_txt = [A.unparse(s) for s in g.body]
+        shrinks = any(t in (f"{X}.pop()", f"{X}.pop(1)", f"{X}.pop(-1)", f"del {X}[1]", f"del {X}[-1]", f"{X}[:] = {X}[:1]", f"del {X}[1:]") for t in body_txt)
+        wraps = any(isinstance(s, ast.Assign) and A.unparse(s.targets[0]).endswith(".instructions[-1]") and isinstance(s.value, ast.Call) and (A.dotted(s.value.func) or "") == "ast.Expr" and s.value.args and A.unparse(s.value.args[0]) == A.unparse(s.targets[0]) for s in g.body)
+        same_loop = any(any(a is lp for a in A.ancestors(g)) for lp in [next((a for a in A.ancestors(stores[-1]) if isinstance(a, ast.For)), None)] if lp is not None)
+        probs = []
+        if A.lineno(g) < last_store_line:
+            probs.append("the check runs before the last rename")
+        if not same_loop:
+            probs.append("the check is not made for every block that is renamed")
+        if not shrinks:
+            probs.append("the duplicate successor is not removed")
+        if not wraps:
+            probs.append("the branch test stays a bare expression in a block that no longer branches (the code generator emits block statements as they are)")
+        if probs:
+            out.append(bad("LOWER-14", fn.qualname, key, ctx.where(fn, g), "; ".join(probs)))
+        else:
+            out.append(ok("LOWER-14", fn.qualname, key, ctx.where(fn, g), f"if {A.unparse(g.test)}: one successor kept, test wrapped in ast.Expr"))
+    return out
